@@ -448,3 +448,10 @@ package util
 //@   ensures[C05.impl.what] fileWrites != old(fileWrites) ==> lastWriteText == itoa(value) && lastWritePath == target
 //@   ensures[C05.impl.err] result == nil ==> trimsp(fileContent[target]) == itoa(value)
 //@   modifies fileContent, fileWrites, lastWritePath, lastWriteText
+
+// ---- constructors (C06, C04): the gains a loop works with are the configured ones, in this order ---------------
+//@ func NewPidLoop
+//@   params (p, i, d)
+//@   props C06 C04 C11
+//@   ensures[C06.new.gains C04 C11] result != nil && fresh(result) && same(result.p, p) && same(result.i, i) && same(result.d, d) && same(result.integral, 0.0) && same(result.error, 0.0)
+//@   modifies nothing
